@@ -14,7 +14,10 @@ goroutine that issues the rechecks concurrently after `Update` has returned (and
 each recheck result is handled under `mtx.Lock`. -/
 namespace Tmv.MempoolLock
 
-inductive Ver | v0 | v1
+/-- `v0a` = mempool v0 over an asynchronous ABCI connection (socket client): `CheckTxAsync`
+returns as soon as the request is queued, answers arrive later in FIFO order, `FlushSync` returns
+when everything queued before it has been answered -/
+inductive Ver | v0 | v1 | v0a
   deriving DecidableEq, Repr
 
 /-- checker program counter -/
@@ -44,6 +47,7 @@ structure MS where
   rechecks : List Nat := []         -- v1: recheck requests on the connection (ids)
   handle : Nat := 0                 -- v1: answered rechecks waiting for the exclusive lock
   nextRecheck : Nat := 0
+  queue : List (Bool × Nat) := []   -- v0a: unanswered requests on the mempool connection, FIFO; (isRecheck, id)
   deriving Repr
 
 inductive Ev
@@ -67,6 +71,11 @@ def setK (s : MS) (i : Nat) (k : KPC) : MS :=
 
 def lockFree (s : MS) : Bool := !s.writer && s.readers == 0
 
+/-- the recording application rejects the check of transaction `i` (the pool does not grow) -/
+def rejected (i : Nat) : Bool := i % 10 == 9
+
+def grow (i : Nat) : Nat := if rejected i then 0 else 1
+
 /-- one atomic step; `none` = not enabled -/
 def step (v : Ver) (s : MS) : Ev → Option MS
   | .spawnCheck i => if (kpc s i).isNone then some { s with chk := s.chk ++ [(i, .wantR)] } else none
@@ -75,15 +84,20 @@ def step (v : Ver) (s : MS) : Ev → Option MS
       match v with
       | .v0 => some { setK s i .atGate with readers := s.readers + 1 }   -- RLock kept
       | .v1 => some (setK s i .atGate)                                    -- RLock released again
+      | .v0a => some { setK s i .atGate with queue := s.queue ++ [(false, i)] }  -- queued, RLock released
     else none
   | .relCheck i =>
     if kpc s i = some .atGate then
       match v with
-      | .v0 => some { setK s i .done with readers := s.readers - 1, pool := s.pool + 1 }
+      | .v0 => some { setK s i .done with readers := s.readers - 1, pool := s.pool + grow i }
       | .v1 => some (setK s i .wantAdd)
+      | .v0a =>
+        if s.queue.head? = some (false, i) then
+          some { setK s i .done with pool := s.pool + grow i, queue := s.queue.tail }
+        else none
     else none
   | .addCheck i =>
-    if v = .v1 ∧ kpc s i = some .wantAdd ∧ lockFree s then some { setK s i .done with pool := s.pool + 1 }
+    if v = .v1 ∧ kpc s i = some .wantAdd ∧ lockFree s then some { setK s i .done with pool := s.pool + grow i }
     else none
   | .spawnCommit => if s.cpc = .idle then some { s with cpc := .wantLock } else none
   | .lockCommit =>
@@ -91,12 +105,14 @@ def step (v : Ver) (s : MS) : Ev → Option MS
       match v with
       | .v0 => some { s with cpc := .flushGate, writer := true }
       | .v1 => some { s with cpc := .flushGate }            -- Lock, then FlushAppConn unlocks
+      | .v0a => some { s with cpc := .flushGate, writer := true }
     else none
   | .relFlush =>
     if s.cpc = .flushGate then
       match v with
       | .v0 => some { s with cpc := .commitGate }
       | .v1 => some { s with cpc := .wantRelock }
+      | .v0a => if s.queue = [] then some { s with cpc := .commitGate } else none  -- FlushSync returns
     else none
   | .relockCommit =>
     if v = .v1 ∧ s.cpc = .wantRelock ∧ lockFree s then some { s with cpc := .commitGate, writer := true }
@@ -110,6 +126,11 @@ def step (v : Ver) (s : MS) : Ev → Option MS
       | .v1 =>
         some { s with cpc := .idle, writer := false,
                       rechecks := (List.range s.pool).map (· + s.nextRecheck),
+                      nextRecheck := s.nextRecheck + s.pool }
+      | .v0a =>
+        -- Update queues the rechecks (CheckTxAsync returns at once) and returns; the caller unlocks
+        some { s with cpc := .idle, writer := false,
+                      queue := s.queue ++ (List.range s.pool).map (fun k => (true, k + s.nextRecheck)),
                       nextRecheck := s.nextRecheck + s.pool }
     else none
   | .relRecheck j =>
@@ -125,6 +146,8 @@ def step (v : Ver) (s : MS) : Ev → Option MS
     | .v1 =>
       if j ∈ s.rechecks then some { s with rechecks := s.rechecks.filter (· ≠ j), handle := s.handle + 1 }
       else none
+    | .v0a =>
+      if s.queue.head? = some (true, j) then some { s with queue := s.queue.tail } else none
   | .handleRecheck =>
     if v = .v1 ∧ 0 < s.handle ∧ lockFree s then some { s with handle := s.handle - 1 } else none
 
@@ -145,6 +168,12 @@ def inWindow (s : MS) : Bool :=
    | .recheckGate _ _ => true
    | _ => false) || !s.rechecks.isEmpty
 
+/-- v0a: no new-transaction check sits in front of a recheck on the (FIFO) connection -/
+def noCheckBeforeRecheck : List (Bool × Nat) → Bool
+  | [] => true
+  | (true, _) :: r => noCheckBeforeRecheck r
+  | (false, _) :: r => r.all fun x => !x.1
+
 /-- the property's last sentence as a state predicate: inside the window no new-transaction check
 is in flight, and none can start -/
 def windowClean (v : Ver) (s : MS) : Prop :=
@@ -157,8 +186,8 @@ goroutines' progress): internal events fire eagerly; a reader does not pass whil
 def writerWaiting (s : MS) : Bool :=
   s.cpc == .wantLock || s.cpc == .wantRelock || s.handle > 0 || s.chk.any fun p => p.2 == .wantAdd
 
-def internalEvs (s : MS) : List Ev :=
-  [.lockCommit, .relockCommit, .handleRecheck] ++
+def internalEvs (v : Ver) (s : MS) : List Ev :=
+  (if v = .v0a then [.relFlush] else []) ++ [.lockCommit, .relockCommit, .handleRecheck] ++
     (s.chk.map fun p => Ev.addCheck p.1) ++
     (if writerWaiting s then [] else s.chk.map fun p => Ev.prelude p.1)
 
@@ -167,7 +196,7 @@ bounded number of times) -/
 def settle (v : Ver) : Nat → MS → MS
   | 0, s => s
   | n + 1, s =>
-    match (internalEvs s).findSome? (fun e => step v s e) with
+    match (internalEvs v s).findSome? (fun e => step v s e) with
     | some s' => settle v n s'
     | none => s
 
